@@ -11,6 +11,10 @@ EXTRA_DIRS_THOROUGH = ("docs/_code", "test")
 
 def check(ctx):
     core4.library_ordering_rule(ctx, "C10")
+    from . import core10
+
+    core10.library_result_rule(ctx, "C10")
+    core10.merged_enable_run_free(ctx, "C10")
     # a readiness that depends on another body's run through a *foreign* module (invisible to the ordering rule above)
     from . import C29 as _c29
 
@@ -32,6 +36,8 @@ def thorough(ctx):
 
 
 MUTANTS = [
+    ("membank-no-order", "transactron/lib/storage.py", "                    write.schedule_before(read_resp)  # to avoid combinational loops\n", "                    pass\n"),
+    ("membank-order-reversed", "transactron/lib/storage.py", "                    write.schedule_before(read_resp)  # to avoid combinational loops\n", "                    read_resp.schedule_before(write)\n"),
     ("forwarder-no-order", "transactron/lib/connectors.py", "        self.write.schedule_before(self.read)  # to avoid combinational loops\n", ""),
     ("forwarder-peek-no-order", "transactron/lib/connectors.py", "        self.write.schedule_before(self.peek)\n", ""),
     ("pipe-order-reversed", "transactron/lib/connectors.py", "        self.read.schedule_before(self.write)  # to avoid combinational loops", "        self.write.schedule_before(self.read)  # to avoid combinational loops"),
